@@ -1042,6 +1042,105 @@ fn tenant_map_digit_flip() -> bool {
     !b_sees_before && verdict
 }
 
+// F-C13-g  (C13, C10)  tenants.json REMOVED over a non-empty database: the map is rebuilt from the sorted list of the current tenant ids, which need
+//                 not be the historical order of assignment (tenant "zeta" came first = index 0; "alpha" was added later = index 1; rebuilt: alpha = 0)
+fn tenant_map_removed() -> bool {
+    use kyrodb_engine::proto::kyro_db_service_client::KyroDbServiceClient;
+    use kyrodb_engine::proto::{InsertRequest, QueryRequest};
+    use std::time::{Duration, Instant};
+    const KEY_Z: &str = "kyro_tenant_z_zzzzzzzzzzzzzzzzzzzzzzzzzzzzzzzz";
+    const KEY_A: &str = "kyro_tenant_a_aaaaaaaaaaaaaaaaaaaaaaaaaaaaaaaa";
+    let bin = c10_server_binary();
+    let tmp = tempfile::tempdir().unwrap();
+    let data_dir = tmp.path().join("data");
+    std::fs::create_dir_all(&data_dir).unwrap();
+    let keys_path = tmp.path().join("api_keys.yaml");
+    let write_keys = |list: &[(&str, &str)]| {
+        let mut keys = String::from("api_keys:\n");
+        for (k, t) in list {
+            keys += &format!("  - key: {k}\n    tenant_id: {t}\n    tenant_name: {t}\n    max_qps: 100000\n    max_vectors: 10000\n    enabled: true\n    created_at: \"2025-01-01T00:00:00Z\"\n");
+        }
+        std::fs::write(&keys_path, keys).unwrap();
+    };
+    let logp = tmp.path().join("server.log");
+    let spawn = |port: u16, http_port: u16| {
+        let log = std::fs::OpenOptions::new().create(true).append(true).open(&logp).unwrap();
+        KillOnDrop(std::process::Command::new(&bin)
+            .env("KYRODB_DATA_DIR", &data_dir)
+            .env("KYRODB_PORT", port.to_string())
+            .env("KYRODB__SERVER__HTTP_PORT", http_port.to_string())
+            .env("KYRODB__AUTH__ENABLED", "true")
+            .env("KYRODB__AUTH__API_KEYS_FILE", &keys_path)
+            .env("KYRODB__HNSW__DIMENSION", "8")
+            .env("KYRODB__HNSW__MAX_ELEMENTS", "1000")
+            .stdout(std::process::Stdio::null())
+            .stderr(log)
+            .spawn()
+            .unwrap_or_else(|e| panic!("cannot spawn {}: {e}", bin.display())))
+    };
+    let stop = |mut server: KillOnDrop| {
+        unsafe { libc::kill(server.0.id() as i32, libc::SIGTERM); }
+        let t0 = Instant::now();
+        while server.0.try_wait().ok().flatten().is_none() && t0.elapsed() < Duration::from_secs(20) { std::thread::sleep(Duration::from_millis(50)); }
+    };
+    let rt = tokio::runtime::Builder::new_multi_thread().worker_threads(2).enable_all().build().unwrap();
+    async fn connect(server: &mut KillOnDrop, endpoint: String) -> Option<kyrodb_engine::proto::kyro_db_service_client::KyroDbServiceClient<tonic::transport::Channel>> {
+        let deadline = Instant::now() + Duration::from_secs(60);
+        loop {
+            match KyroDbServiceClient::connect(endpoint.clone()).await {
+                Ok(c) => return Some(c),
+                Err(e) => {
+                    if let Ok(Some(_)) = server.0.try_wait() { return None; }
+                    assert!(Instant::now() < deadline, "server did not come up: {e}");
+                    tokio::time::sleep(Duration::from_millis(100)).await;
+                }
+            }
+        }
+    }
+    // run 1: only tenant "zeta" exists; it stores document 1
+    write_keys(&[(KEY_Z, "zeta")]);
+    let (port, http_port) = (c10_port(), c10_port());
+    let mut server = spawn(port, http_port);
+    rt.block_on(async {
+        let mut client = connect(&mut server, format!("http://127.0.0.1:{port}")).await.expect("run 1");
+        let r = client.insert(c10_keyed(KEY_Z, InsertRequest { doc_id: 1, embedding: c10_vec(1.0, 0.5), metadata: HashMap::new(), namespace: String::new() })).await.expect("insert rpc");
+        assert!(r.get_ref().success, "insert failed: {}", r.get_ref().error);
+    });
+    stop(server);
+    // run 2: tenant "alpha" is added; it sees nothing
+    write_keys(&[(KEY_Z, "zeta"), (KEY_A, "alpha")]);
+    let (port, http_port) = (c10_port(), c10_port());
+    let mut server = spawn(port, http_port);
+    let a_sees_before = rt.block_on(async {
+        let mut client = connect(&mut server, format!("http://127.0.0.1:{port}")).await.expect("run 2");
+        client.query(c10_keyed(KEY_A, QueryRequest { doc_id: 1, include_embedding: false, namespace: String::new() })).await.expect("query rpc").get_ref().found
+    });
+    stop(server);
+    let mp = data_dir.join("tenants.json");
+    println!("  run 1: zeta inserted doc 1; run 2: alpha added, alpha's Query(1) found={a_sees_before}; tenants.json = {}", std::fs::read_to_string(&mp).unwrap().replace('\n', " "));
+    // the single fault: tenants.json is removed
+    std::fs::remove_file(&mp).unwrap();
+    println!("  fault: tenants.json removed");
+    let (port, http_port) = (c10_port(), c10_port());
+    let mut server = spawn(port, http_port);
+    let verdict = rt.block_on(async {
+        match connect(&mut server, format!("http://127.0.0.1:{port}")).await {
+            None => { println!("  run 3: the server refused to start"); false }
+            Some(mut client) => {
+                let a = client.query(c10_keyed(KEY_A, QueryRequest { doc_id: 1, include_embedding: false, namespace: String::new() })).await.expect("query rpc").get_ref().found;
+                let z = client.query(c10_keyed(KEY_Z, QueryRequest { doc_id: 1, include_embedding: false, namespace: String::new() })).await.expect("query rpc").get_ref().found;
+                println!("  run 3: the server STARTED; tenants.json = {}; alpha's Query(1) found={a} (alpha never stored a document), zeta's Query(1) found={z}",
+                         std::fs::read_to_string(&mp).unwrap_or_default().replace('\n', " "));
+                a || !z
+            }
+        }
+    });
+    drop(rt);
+    let _ = server.0.kill();
+    let _ = server.0.wait();
+    !a_sees_before && verdict
+}
+
 fn main() {
     let which = std::env::args().nth(1).unwrap_or_else(|| "all".to_string());
     if which == "F-C01-a-child" {
@@ -1073,6 +1172,7 @@ fn main() {
         ("F-C13-d", Box::new(manifest_removed_server_starts_empty)),
         ("F-C19-a", Box::new(admin_rpcs_not_rate_limited)),
         ("F-C13-f", Box::new(tenant_map_digit_flip)),
+        ("F-C13-g", Box::new(tenant_map_removed)),
         ("F-C13-e", Box::new(length_flip_reads_as_torn_tail)),
         ("F-C13-c.snapshot", Box::new(|| manifest_key_flip("latest_snapshot"))),
         ("F-C13-c.segments", Box::new(|| manifest_key_flip("wal_segments"))),
